@@ -966,7 +966,9 @@ func classifyDeath(stderr string) *k.Violation {
 		if frame == "" {
 			return nil
 		}
-		props := []string{"C12", "C13"}
+		// nothing ever happens again: requests are not answered (C12), the server is wedged (C13),
+		// background processing never converges (C11)
+		props := []string{"C12", "C13", "C11"}
 		if strings.Contains(frame, "subsystems/api") {
 			// a front end (or the api helper both share) that never answers drops the reply
 			props = append(props, "C15")
